@@ -94,7 +94,14 @@ func main() {
 		}
 		h, err := wit.RunHistory(r, o, func(h *wit.Hist, s *wit.Step, i int) {
 			if s.Ambiguous {
-				run.Count("requests_failed_in_storage_not_judged")
+				// a storage fault may turn any verdict into a storage error, never a refusal into an acceptance
+				reqOpen := s.Req.Ambiguous || (s.Authentic && (s.Req.CPKind == "mutated" || s.Req.CPKind == "garbage")) // acceptability left open by the statements
+				if h.FaultFired != "" && !reqOpen && s.Err == nil && !s.OutClaim && !s.Class.Accepted() {
+					run.Count("evaluations")
+					run.Violate(fmt.Sprintf("accepted_under_storage_fault_but_model_refuses;model=%s", s.Class), fmt.Sprintf("with one injected storage fault (%s) a request whose first matching rule is %s was accepted", h.FaultFired, s.Class), unit, map[string]any{"store": h.Kind, "request": s.Req.String(), "fault": h.FaultFired, "stored_before": string(s.Before.CP[s.Req.LogID]), "returned": string(s.Ret), "trace": h.Trace})
+					return
+				}
+				run.Count("requests_under_a_storage_fault_judged_for_acceptance_only")
 				return
 			}
 			judge(run, unit, s, "random", h.Kind, h.Trace)
